@@ -284,6 +284,10 @@ def run(p, report, tier):
     report.rule("R8.6", "an argument that describes the GIVEN samples to a helper (parameter `sample_indices`: the rows of "
                 "X the distances are measured to) does not depend on the candidate representation (candidates, X_cand, "
                 "mapping or anything computed from them, e.g. X with the candidate rows appended)", floor=2)
+    report.rule("R8.7", "the NUMBER of candidates (len / shape[0] of candidates, X_cand, mapping) is used only as a size "
+                "(array constructors, ranges), in validation comparisons and messages, or handed on - never as an "
+                "operand of arithmetic or of min/max that feeds a score: restricting the candidates must not change "
+                "the utilities of the remaining ones", floor=30)
     funcs = c01.pool_functions(p)
     n_pairs = 0
     for f in funcs:
@@ -417,6 +421,17 @@ def run(p, report, tier):
                        detail="each score depends on its own candidate only" if not bad else
                        "the set of candidates is read at line(s) " + ", ".join(str(b.lineno) for b in bad) +
                        " while scoring a single candidate: restricting the candidates changes the scores of the remaining ones")
+    report.rule("R8.8", "a reduction over an array that carries NaN at the non-candidates (also when received as a "
+                "parameter) is NaN-aware, so index candidates that are a strict subset behave like the same samples "
+                "given as feature rows (shared with C01 R1.3)", floor=5)
+    c01.check_nan_reductions(p, c01.Report_proxy(report, {"R1.3": "R8.8"}), funcs, "R1.3")
+    report.rule("R8.9", "typestate of the index-based classifier wrapper inside a query: every read of the CURRENT model "
+                "(predict*/classes_ directly, or a helper that only reads) happens before the first hypothetical "
+                "refit (partial_fit without set_base_clf, directly or in a helper that refits first) and never inside "
+                "a loop that contains one: otherwise it sees the model of the last simulated candidate", floor=2)
+    check_wrapper_typestate(p, report, funcs)
+    n87 = check_candidate_count_uses(p, report, funcs)
+    report.analysed["candidate_count_uses"] = n87
     n86 = check_reference_set_roles(p, report, funcs)
     report.analysed["reference_set_arguments"] = n86
     report.analysed["per_candidate_loops"] = n85
@@ -663,3 +678,189 @@ def check_reference_set_roles(p, report, funcs):
                            "feature rows the reference set differs from the one used for the same samples given as "
                            "indices")
     return n
+
+
+CAND_NAMES = {"X_cand", "candidates", "mapping"}
+SIZE_CALLS = {"zeros", "ones", "full", "empty", "arange", "range", "zeros_like", "ones_like", "full_like", "empty_like",
+              "reshape", "tile", "repeat", "eye", "check_scalar", "check_consistent_length", "ValueError", "TypeError",
+              "format", "warn", "len", "broadcast_to", "array_split", "linspace", "isinstance"}
+SCORE_CALLS = {"min", "max", "minimum", "maximum", "clip", "ceil", "floor", "round", "sqrt", "log", "log2", "exp", "power"}
+# wrappers whose very purpose is to restrict / chunk the candidates
+R87_EXEMPT_FILES = {"skactiveml/pool/_wrapper.py": "SubSamplingWrapper restricts the candidates by design; "
+                                                   "the parallel wrapper only sizes its chunks"}
+
+
+def _is_cand_count(e, count_names):
+    if isinstance(e, ast.Call) and c01.callname(e) == "len" and e.args and base_name(e.args[0]) in CAND_NAMES \
+            and isinstance(e.args[0], ast.Name):
+        return True
+    if isinstance(e, ast.Subscript) and isinstance(e.value, ast.Attribute) and e.value.attr == "shape" \
+            and isinstance(e.value.value, ast.Name) and e.value.value.id in CAND_NAMES \
+            and isinstance(e.slice, ast.Constant) and e.slice.value == 0:
+        return True
+    if isinstance(e, ast.Name) and isinstance(e.ctx, ast.Load) and e.id in count_names:
+        return True
+    return False
+
+
+def check_candidate_count_uses(p, report, funcs):
+    n = 0
+    for f in funcs:
+        if f.file in R87_EXEMPT_FILES:
+            continue
+        parents = {}
+        for x in ast.walk(f.node):
+            for ch in ast.iter_child_nodes(x):
+                parents[ch] = x
+        # locals that hold the count: n = len(X_cand) (single binding)
+        count_names = set()
+        for x in ast.walk(f.node):
+            if isinstance(x, ast.Assign) and len(x.targets) == 1 and isinstance(x.targets[0], ast.Name) \
+                    and _is_cand_count(x.value, set()):
+                nm = x.targets[0].id
+                stores = [y for y in ast.walk(f.node) if isinstance(y, ast.Name) and y.id == nm and isinstance(y.ctx, ast.Store)]
+                if len(stores) == 1:
+                    count_names.add(nm)
+        for x in ast.walk(f.node):
+            if not _is_cand_count(x, count_names):
+                continue
+            if isinstance(x, ast.Name) and isinstance(parents.get(x), ast.Assign) and x in parents[x].targets:
+                continue
+            verdict = None
+            cur = x
+            while cur in parents and not isinstance(parents[cur], ast.stmt):
+                par = parents[cur]
+                if isinstance(par, ast.Call):
+                    cn = c01.callname(par)
+                    if cur is par.func:
+                        pass
+                    elif cn in SIZE_CALLS:
+                        verdict = ("size", cn)
+                        break
+                    elif cn in SCORE_CALLS:
+                        verdict = ("score", cn)
+                        break
+                    else:
+                        verdict = ("handed on", cn)
+                        break
+                if isinstance(par, ast.keyword) and par.arg in ("shape", "size", "n_neighbors") and False:
+                    pass
+                if isinstance(par, ast.Compare):
+                    verdict = ("comparison", "")
+                    break
+                if isinstance(par, (ast.JoinedStr, ast.FormattedValue)):
+                    verdict = ("message", "")
+                    break
+                if isinstance(par, ast.BinOp):
+                    verdict = ("score", type(par.op).__name__)
+                    # keep climbing: arithmetic inside a size constructor is a size
+                    up = par
+                    while up in parents and not isinstance(parents[up], ast.stmt):
+                        up = parents[up]
+                        if isinstance(up, ast.Call) and c01.callname(up) in SIZE_CALLS:
+                            verdict = ("size", c01.callname(up))
+                            break
+                    break
+                cur = par
+            if verdict is None:
+                verdict = ("plain", "")
+            n += 1
+            st = x
+            while st in parents and not isinstance(st, ast.stmt):
+                st = parents[st]
+            ok = verdict[0] != "score"
+            report.add("R8.7", f.qual, f"candidate count in `{norm_stmt(st, 70)}`", f"{f.file}:{x.lineno}", ok,
+                       detail=f"used as {verdict[0]} {verdict[1]}".strip() if ok else
+                       f"the number of candidates is an operand of {verdict[1]}: a value that enters the scores depends on "
+                       "how many candidates are offered")
+    return n
+
+
+def _w_uses(fnode, w):
+    """[(lineno, kind, node)] uses of wrapper variable `w` in statement order:
+    kind 'M' hypothetical refit, 'B' base (re)fit, 'R' read of the model"""
+    out = []
+    for n in ast.walk(fnode):
+        if isinstance(n, ast.Call) and isinstance(n.func, ast.Attribute) and isinstance(n.func.value, ast.Name) \
+                and n.func.value.id == w:
+            a = n.func.attr
+            if a in ("partial_fit", "fit"):
+                sb = [k for k in n.keywords if k.arg == "set_base_clf"]
+                base = bool(sb) and isinstance(sb[0].value, ast.Constant) and sb[0].value.value is True
+                out.append((n.lineno, "B" if base else "M", n))
+            elif a.startswith("predict") or a in ("score",):
+                out.append((n.lineno, "R", n))
+        elif isinstance(n, ast.Attribute) and isinstance(n.value, ast.Name) and n.value.id == w \
+                and n.attr in ("classes_", "clf_") and isinstance(n.ctx, ast.Load):
+            out.append((n.lineno, "R", n))
+    return sorted(out, key=lambda t: (t[0], t[1]))
+
+
+def check_wrapper_typestate(p, report, funcs):
+    for f in funcs:
+        ws = [n.targets[0].id for n in ast.walk(f.node) if isinstance(n, ast.Assign) and isinstance(n.value, ast.Call)
+              and c01.callname(n.value) == "IndexClassifierWrapper" and len(n.targets) == 1
+              and isinstance(n.targets[0], ast.Name)]
+        if not ws or f.cls is None:
+            continue
+        w = ws[0]
+        ci = p.classes.get(f.cls) if isinstance(f.cls, str) else f.cls
+        fam = [c for c in p.classes.values() if ci is not None and p.is_subclass(c, ci.name)] if ci is not None else []
+        parents = {}
+        for x in ast.walk(f.node):
+            for ch in ast.iter_child_nodes(x):
+                parents[ch] = x
+
+        def helper_kind(call):
+            """kind of a call self.<m>(..., w, ...) from the first use of the bound parameter in every override"""
+            if not (isinstance(call.func, ast.Attribute) and isinstance(call.func.value, ast.Name) and call.func.value.id == "self"):
+                return None
+            pos = [i for i, a in enumerate(call.args) if isinstance(a, ast.Name) and a.id == w]
+            if not pos:
+                return None
+            kinds = set()
+            for c in fam:
+                m = c.methods.get(call.func.attr)
+                if m is None:
+                    continue
+                params = [a for a in m.params() if a != "self"]
+                if pos[0] >= len(params):
+                    continue
+                us = _w_uses(m.node, params[pos[0]])
+                if us:
+                    kinds.add(us[0][1])
+            if "M" in kinds:
+                return "M"
+            if kinds == {"R"}:
+                return "R"
+            return None
+        events = [(ln, k, n) for (ln, k, n) in _w_uses(f.node, w)]
+        for n in ast.walk(f.node):
+            if isinstance(n, ast.Call):
+                k = helper_kind(n)
+                if k:
+                    events.append((n.lineno, k, n))
+        events.sort(key=lambda t: t[0])
+        ms = [e for e in events if e[1] == "M"]
+
+        def loops_of(node):
+            out = []
+            x = parents.get(node)
+            while x is not None:
+                if isinstance(x, (ast.For, ast.While)):
+                    out.append(x)
+                x = parents.get(x)
+            return out
+        for (ln, k, n) in events:
+            if k != "R":
+                continue
+            before = [m for m in ms if m[0] < ln]
+            in_loop = [m for m in ms if any(L in loops_of(m[2]) for L in loops_of(n))]
+            ok = not before and not in_loop
+            st = n
+            while st in parents and not isinstance(st, ast.stmt):
+                st = parents[st]
+            report.add("R8.9", f.qual, f"read of the current model `{norm_stmt(st, 70)}`", f"{f.file}:{ln}", ok,
+                       detail="precedes every hypothetical refit" if ok else
+                       f"follows / shares a loop with the hypothetical refit at line {(before or in_loop)[0][0]}: the value "
+                       "depends on which candidate was simulated last (order and choice of the candidates)")
